@@ -38,6 +38,20 @@ def judge (f : Int) (obs : String) : String :=
   else if obs == (expect f).wire then "holds"
   else "fails:" ++ (expect f).cls
 
+/-- verdict on a reading INSIDE the leap second that follows second `f` (23:59:60.x when `f` is a 23:59:59): the text asks
+for "whole seconds since 1970-01-01T00:00:00Z", the type's documentation adds "not counting leap seconds". Well inside the
+range two answers are defensible — the second the reading hangs on (`f`: chrono's `timestamp()`, the usual "repeat :59"
+convention) and the next one (`f + 1`: the POSIX normalisation of `:60`) — nothing else is (not `f + 2`, not `f − 1`, not an
+error). At the two ends of the range the text decides: the reading is an instant EARLIER than second `f + 1`, so when
+`f + 1` is the epoch it is "an earlier instant" (underflow, not 0), and when `f` is the last second of the range the
+number "lies in 0..2^32" (the value, not overflow). Never a panic. -/
+def judgeLeap (f : Int) (obs : String) : String :=
+  if obs == "unrepresentable" then "dontcare"
+  else if obs == "panic" then "fails:panic"
+  else if obs == (expect f).wire then "holds"
+  else if 0 ≤ f && f + 1 < 4294967296 && obs == (expect (f + 1)).wire then "holds"
+  else "fails:leap"
+
 /-- `ok <n>` → `n` -/
 def okValue (obs : String) : Option Nat :=
   match obs.splitOn " " with
